@@ -161,6 +161,14 @@ def run(ctx):
         mol_name = cname[4:].split("@")[0]
         resn = K.molecules()[mol_name][0]
         tl = ctext.splitlines()
+        # the declaration is about the molecule itself: a placement that brings one of its atoms within bonding distance
+        # (2.5 A is the largest criterion) of the fragment next to it is not judged
+        from .. import pdbio as _pd
+        ka = [_pd.parse_line(ln) for ln in tl if C.is_atom(ln) and ln[17:20].strip() == resn]
+        oa = [_pd.parse_line(ln) for ln in tl if C.is_atom(ln) and ln[17:20].strip() != resn]
+        if any((a_.x - b_.x) ** 2 + (a_.y - b_.y) ** 2 + (a_.z - b_.z) ** 2 < 2600 ** 2 for a_ in ka for b_ in oa):
+            ctx.extra["kit_placements_in_contact_not_judged"] = ctx.extra.get("kit_placements_in_contact_not_judged", 0) + 1
+            continue
         c0 = rec["confs"][0]
         got = sorted([g["type"] for g in rec["G"][c0] if g.get("resn", "").strip() == resn] +
                      [o[1] for o in (rec.get("_others") or {}).get(c0, []) if 0 <= o[0] < len(tl) and tl[o[0]][17:20].strip() == resn])
